@@ -16,7 +16,7 @@ RULE = ('one seeded chart spec and event history is executed under a drawn subse
 ASSUMPTIONS = ['no schedule dimension; in the active-object hosts the client waits for the object to be idle between events']
 PROBES = []
 PLAN = {
-  'quick': {'strata': {'configs': 1500}, 'wall_s': 120, 'chunk': 25, 'min_conclusive': 300},
+  'quick': {'strata': {'configs': 1500}, 'wall_s': 300, 'chunk': 25, 'min_conclusive': 300},
   'thorough': {'strata': {'configs': 40000}, 'wall_s': 900, 'chunk': 100, 'min_conclusive': 3000},
 }
 
